@@ -310,7 +310,6 @@ Section Refine.
   Definition ev_plain (e : event) : Prop :=
     match e with
     | EvCall KOther _ _ _ => fx_site fx = true
-    | EvEvalLeave => fx_eval fx = true
     | _ => True
     end.
   Definition kind_plain (k : lvkind) : Prop :=
@@ -324,8 +323,7 @@ Section Refine.
     - cbn [to_model ev_step spec_step]. unfold set_offset. cbn [f_native f_file f_callee st_idx].
       f_equal. f_equal. destruct c; cbn [record_site]; try reflexivity. rewrite H. reflexivity.
     - cbn [to_model ev_step spec_step]. reflexivity.
-    - cbn [to_model ev_step spec_step]. destruct stk as [|c stk']; [reflexivity|].
-      rewrite H. reflexivity.
+    - cbn [to_model ev_step spec_step]. destruct stk as [|c stk']; reflexivity.
   Qed.
 
   Lemma fold_commute k : forall evs st, Forall ev_plain evs ->
@@ -545,10 +543,10 @@ Proof. reflexivity. Qed.
 Theorem format_name_message : forall n m, n <> [] -> m <> [] -> format n m = n ++ [58; 32] ++ m.
 Proof. intros n m Hn Hm. destruct n; [contradiction|]. destruct m; [contradiction|]. reflexivity. Qed.
 
-Theorem class_table : forall kind, kind <> 20 -> kind <> 26 -> model_class kind = spec_class kind.
+Theorem class_table : forall kind, kind <> 20 -> model_class kind = spec_class kind.
 Proof.
-  intros kind H20 H26. destruct kind as [|p|p]; try reflexivity.
-  do 7 (try (destruct p as [p|p|]; try reflexivity)); exfalso; (apply H20; reflexivity) || (apply H26; reflexivity).
+  intros kind H20. destruct kind as [|p|p]; try reflexivity.
+  do 7 (try (destruct p as [p|p|]; try reflexivity)); exfalso; apply H20; reflexivity.
 Qed.
 
 Theorem message_table : forall kind, kind <> 12 -> kind <> 13 ->
@@ -760,3 +758,30 @@ Definition in_left_first (l : lop) (r : rop) : Z * list Z :=
   if thr then (90, lg) else match r with RPrim => (6, lg) | RObj => (1, lg) | _ => (0, lg) end.
 Theorem in_left_first_refuted : exists l r, in_left_first l r <> spec_order 0 l r.
 Proof. exists LThrow, RPrim. vm_compute. discriminate. Qed.
+
+(* ------------------------------------------------------------------ *)
+(* a direct eval gives the caller's frame its file back                 *)
+Theorem direct_eval_restores_file : forall fx k evs f,
+  run_events fx k (evs ++ [EvEvalEnter f; EvEvalLeave]) = run_events fx k evs.
+Proof.
+  intros fx k evs f. unfold run_events. rewrite fold_left_app.
+  destruct (fold_left (ev_step fx) evs (init_frame fx k, [])) as [fr stk].
+  cbn [fold_left ev_step fst]. unfold set_file. cbn [f_native f_file f_callee f_offset].
+  destruct fr; reflexivity.
+Qed.
+
+(* FileSet.Position of a single file is File.Position, hence the inverse of the
+   generator's offset function *)
+Theorem fileset_position_inverse : forall lines line col,
+  lines_ok lines -> in_text lines line col ->
+  fileset_position [join_lines lines] (1 + offset_of lines line col) = Some (0, line, col).
+Proof.
+  intros lines line col Hok Hin. unfold fileset_position. cbn [fileset_bases fileset_position_in].
+  pose proof (position_inverse lines line col Hok Hin) as Hp.
+  assert (Hr : offset_of lines line col < zlen (join_lines lines)).
+  { unfold file_position_off in Hp.
+    destruct (Z.leb_spec (zlen (join_lines lines)) (offset_of lines line col)); [discriminate|]. lia. }
+  destruct (Z.leb_spec (1 + offset_of lines line col) (1 + zlen (join_lines lines))); [|lia].
+  unfold file_position. replace (1 + offset_of lines line col - 1) with (offset_of lines line col) by lia.
+  rewrite Hp. reflexivity.
+Qed.
